@@ -54,6 +54,16 @@ func (m *orderMon) Observe(h *Hand, t *Trans) *vlib.Violation {
 		}
 		return nil
 	}
+	// whatever was requested, the action the engine says it carried out must be one
+	// the seat had been offered (a raise request may legitimately end as an all-in
+	// or, at the level of the wager, as a call - but only if that was on offer)
+	if t.Op.K == "act" && t.Err == nil && post.Status.LastAction != nil && pre.Status.CurrentEvent == "RoundStarted" {
+		did := post.Status.LastAction.Type
+		was := pre.Players[pre.Status.CurrentPlayer].AllowedActions
+		if post.Status.LastAction.Source == pre.Status.CurrentPlayer && !hasStr(was, did) {
+			return vlib.V("C04", "carried-out-unoffered/"+did, "%s: the engine carried out %q for seat %d, who had been offered %v", t.Op, did, pre.Status.CurrentPlayer, was)
+		}
+	}
 	if post.Status.CurrentEvent != "RoundStarted" {
 		return nil
 	}
